@@ -123,7 +123,27 @@ type WritesDecl struct {
 	Line        int
 }
 
+type EnumDecl struct {
+	Spec, Type string
+	Props      []string
+	File       string
+	Line       int
+	Pkg        string
+}
+
+type CallSitesDecl struct {
+	Callees map[string]bool
+	Props   []string
+	File    string
+	Line    int
+}
+
 type ContractDB struct {
+	Enums     []*EnumDecl
+	CallSites []*CallSitesDecl
+	FuncAlias    map[string]string   // "pkg.Var" -> full name of the function the variable is initialised with
+	FuncAliasProps map[string][]string
+	LibFrame     map[string]bool     // library packages assumed not to touch module-private state
 	ZeroGlobals  map[string][]string // "pkg.name" -> properties: never assigned, keeps its zero value
 	ConstGlobals map[string][]string // "pkg.name" -> properties: assigned once in init with a fresh object
 	Writes  []*WritesDecl
@@ -143,7 +163,7 @@ type ContractDB struct {
 
 var clauseRe = regexp.MustCompile(`^(requires|ensures|invariant|assert)(\?)?(\[[^\]]*\])?(!)?\s*(.*)$`)
 
-var topKeywords = map[string]bool{"zeroglobal": true, "constglobal": true, "writes": true, "covers": true, "func": true, "ext": true, "iface": true, "spec": true, "ghost": true, "axiom": true, "sealed": true, "lemma": true, "pure": true, "class": true, "trusted": true}
+var topKeywords = map[string]bool{"funcalias": true, "libframe": true, "enumerates": true, "callsites": true, "zeroglobal": true, "constglobal": true, "writes": true, "covers": true, "func": true, "ext": true, "iface": true, "spec": true, "ghost": true, "axiom": true, "sealed": true, "lemma": true, "pure": true, "class": true, "trusted": true}
 var subKeywords = map[string]bool{"property": true, "flags": true, "requires": true, "ensures": true, "modifies": true, "loop": true, "let": true, "params": true}
 
 func firstWord(s string) string {
@@ -405,6 +425,58 @@ func (db *ContractDB) parseFile(path, pkg string) error {
 			}
 			lm.E = e
 			db.Lemmas = append(db.Lemmas, lm)
+		case "funcalias":
+			cur = nil
+			// funcalias erpc.NewStatus => github.com/henrylee2cn/goutil/status.New @C15
+			parts := strings.Split(rest, "=>")
+			if len(parts) != 2 {
+				return fail(l, "funcalias pkg.Var => full.Func [@Cnn]")
+			}
+			if db.FuncAlias == nil {
+				db.FuncAlias = map[string]string{}
+				db.FuncAliasProps = map[string][]string{}
+			}
+			v := strings.TrimSpace(parts[0])
+			if !strings.Contains(v, ".") {
+				v = pkg + "." + v
+			}
+			rf := strings.Fields(parts[1])
+			db.FuncAlias[v] = rf[0]
+			for _, w := range rf[1:] {
+				db.FuncAliasProps[v] = append(db.FuncAliasProps[v], strings.TrimPrefix(w, "@"))
+			}
+		case "libframe":
+			cur = nil
+			if db.LibFrame == nil {
+				db.LibFrame = map[string]bool{}
+			}
+			for _, f := range strings.Fields(rest) {
+				db.LibFrame[f] = true
+			}
+		case "enumerates":
+			cur = nil
+			// enumerates specfn <type text> @Cnn : every package-level variable of that type is mentioned in the spec fn
+			f := strings.Fields(rest)
+			if len(f) < 2 {
+				return fail(l, "enumerates specfn type [@Cnn]")
+			}
+			en := &EnumDecl{Spec: f[0], Type: f[1], File: path, Line: l.line, Pkg: pkg}
+			for _, w := range f[2:] {
+				en.Props = append(en.Props, strings.TrimPrefix(w, "@"))
+			}
+			db.Enums = append(db.Enums, en)
+		case "callsites":
+			cur = nil
+			// callsites @Cnn callee callee ... : every module call site of the callees lies in a function under contract for Cnn
+			cs := &CallSitesDecl{File: path, Line: l.line, Callees: map[string]bool{}}
+			for _, w := range strings.Fields(rest) {
+				if strings.HasPrefix(w, "@") {
+					cs.Props = append(cs.Props, w[1:])
+				} else {
+					cs.Callees[w] = true
+				}
+			}
+			db.CallSites = append(db.CallSites, cs)
 		case "zeroglobal":
 			cur = nil
 			f := strings.Fields(rest)
